@@ -294,6 +294,7 @@ func (s *ssut) firstObserve(probe int) bool {
 		o = 5
 	}
 	c.Logf("    first observer after the window: %s", sFirstName[o])
+	s.unseen = false
 	limit := want + 3
 	switch o {
 	case 0:
